@@ -120,30 +120,33 @@ func builtinDateSetTime(call FunctionCall) Value {
 func builtinDateBeforeSet(call FunctionCall, argumentLimit int, timeLocal bool) (*object, *dateObject, *ecmaTime, []int) {
 	obj := call.thisObject()
 	date := dateObjectOf(call.runtime, call.thisObject())
-	if date.isNaN {
-		return nil, nil, nil, nil
-	}
 
 	if argumentLimit > len(call.ArgumentList) {
 		argumentLimit = len(call.ArgumentList)
 	}
 
-	if argumentLimit == 0 {
-		obj.value = invalidDateObject
-		return nil, nil, nil, nil
-	}
-
+	// Every supplied argument is converted, in order, before anything else
+	// happens (15.9.5.28-41: "Let x be ToNumber(arg)" for each of them).
 	valueList := make([]int, argumentLimit)
+	valid := argumentLimit > 0
 	for index := range argumentLimit {
 		value := call.ArgumentList[index]
 		nm := value.number()
 		switch nm.kind {
 		case numberInteger, numberFloat:
 		default:
-			obj.value = invalidDateObject
-			return nil, nil, nil, nil
+			valid = false
 		}
 		valueList[index] = int(nm.int64)
+	}
+
+	if date.isNaN {
+		return nil, nil, nil, nil
+	}
+
+	if !valid {
+		obj.value = invalidDateObject
+		return nil, nil, nil, nil
 	}
 	baseTime := date.Time()
 	if timeLocal {
